@@ -15,7 +15,10 @@ import (
 // Engine interprets SSA functions of one loaded program.
 type Engine struct {
 	P        *core.Program
-	MaxDepth int
+	// FailReads makes every transport read primitive (io.ReadFull, io.CopyN, binary.Read) fork into "succeeds" and
+	// "fails after delivering fewer bytes than asked" (used where truncated input must be covered: C07)
+	FailReads bool
+	MaxDepth  int
 	MaxSteps int
 	MaxPaths int
 	// Contract hooks: called for invoke-mode calls on symbolic interface values and for
